@@ -1165,6 +1165,7 @@ def sec_eqhash(ctx, rng, case):
     n = len(pool)
     eqm = [[False] * n for _ in range(n)]
     hs = [_hashable(p) for p in pool]
+    iscirq = [type(p).__module__.split(".")[0].startswith("cirq") for p in pool]
     for i in range(n):
         for j in range(n):
             try:
@@ -1183,6 +1184,8 @@ def sec_eqhash(ctx, rng, case):
             continue
         ctx.check(eqm[i][i], "eq-reflexive", "C11:eq-not-reflexive:" + _cls(pool[i]), "x != x", **wit)
         for j in range(i + 1, n):
+            if not (iscirq[i] or iscirq[j]):
+                continue  # e.g. sympy.Float(1.0) vs 1: third-party semantics, not Cirq's contract
             wit2 = dict(gen=name, a=repr(pool[i])[:300], b=repr(pool[j])[:300], ta=_cls(pool[i]), tb=_cls(pool[j]))
             ctx.check(eqm[i][j] == eqm[j][i], "eq-symmetric", "C11:eq-not-symmetric:%s/%s" % tuple(sorted((_cls(pool[i]), _cls(pool[j])))),
                       "a == b is %s but b == a is %s" % (eqm[i][j], eqm[j][i]), **wit2)
@@ -1196,6 +1199,8 @@ def sec_eqhash(ctx, rng, case):
                 ctx.check(hs[i][1] == hs[j][1], "eq=>hash", "C11:equal-values-different-hash:%s/%s" % tuple(sorted((_cls(pool[i]), _cls(pool[j])))),
                           "a == b but hash(a) != hash(b)", **wit2)
     for i, j, k in itertools.combinations(range(n), 3):
+        if not (iscirq[i] or iscirq[j] or iscirq[k]):
+            continue
         for a, b, c in ((i, j, k), (j, i, k), (i, k, j)):
             if eqm[a][b] and eqm[b][c]:
                 ctx.check(eqm[a][c], "eq-transitive", "C11:eq-not-transitive:" + _cls(pool[a]), "a == b, b == c, a != c",
